@@ -16,7 +16,7 @@ REQUIRED_COUNTERS = ["queries.memory", "queries.sqlite", "queries.peewee", "quer
 RULE = ("generated programs biased towards in-place mutators (categorize, tag, split_url_events, period_union, flood, "
         "chunk_events_by_key, merge_events_by_keys), a third of them made to raise midway (unknown function after a "
         "mutating call, unknown bucket, wrong type), run through aw_query.query against a store of each backend "
-        "holding three populated buckets (a few events with negative durations, identical twins and a day-long event among them; minutes of data, or - 6 of the 15 workers - most of a year of 6-24 h events, so that windows span weeks and months), with windows of any UTC offset (whole data range, partial, zero-width, "
+        "holding three populated buckets (a few events with negative durations, identical twins and a day-long event among them; minutes of data, or - 3 of the 15 workers - one bucket of ~2700 events nearly half of which start at the same instant as their neighbour, or - 6 of the 15 workers - most of a year of 6-24 h events, so that windows span weeks and months), with windows of any UTC offset (whole data range, partial, zero-width, "
         "outside all data, sub-second edges), with an occasional direct write to a bucket between two queries; before/after each query every bucket is dumped (events + metadata) and "
         "compared; every query_bucket / query_bucket_eventcount result recorded at the registry is compared with a "
         "direct windowed read / count of the same bucket over the query's own instants; non-trivial = the program "
@@ -34,8 +34,9 @@ def plan(tier):
 
 
 def setup(ctx):
-    # workers 0-2, 6-8, 12-14: a few minutes of data; workers 3-5, 9-11: most of a year (windows of weeks and months)
-    _ensure(ctx, BACKENDS[ctx.widx % 3], f"c12-data-{ctx.seed}-{ctx.widx}" + ("-long" if (ctx.widx // 3) % 2 else ""))
+    # workers 0-2, 6-8: a few minutes of data; workers 3-5, 9-11: most of a year (windows of weeks and months);
+    # workers 12-14: one bucket of ~2700 events, nearly half of them starting at the instant of their neighbour
+    _ensure(ctx, BACKENDS[ctx.widx % 3], f"c12-data-{ctx.seed}-{ctx.widx}" + ("-big" if ctx.widx >= 12 else "-long" if (ctx.widx // 3) % 2 else ""))
 
 
 def _ensure(ctx, backend, data_key):
@@ -48,7 +49,8 @@ def _ensure(ctx, backend, data_key):
         _S["reg"] = qlang.Registry()
         _S["reg"].keep_results_of = {"query_bucket", "query_bucket_eventcount"}
     st = Store(backend, ctx.tmp)
-    lo, hi = qlang.populate(st.ds, random.Random(data_key), 1_600_000_000_000_000, long_range=data_key.endswith("-long"), odd_events=True)
+    lo, hi = qlang.populate(st.ds, random.Random(data_key), 1_600_000_000_000_000, long_range=data_key.endswith("-long"), odd_events=True,
+                             big=data_key.endswith("-big"))
     dump = dump_store(st.ds)
     ends = sorted({t[1] + t[2] for _, evs in dump.values() for t in evs})
     _S.update(st=st, lo=lo, hi=hi, backend=backend, dump=dump, key=(backend, data_key), ends=ends)
